@@ -309,7 +309,7 @@ class _SyncHandler(Contract):
             return dict(harness="sync", family="sync_items", slice_event=ev(z3.Bool("event_index_is_slice")),
                         partner_collected=not ev(has_partners))
         return st, [self_ref, VElem(obj), VStr(name), VElem(old), VElem(last)], {}, dict(
-            LOCK=LOCK, locked_ref=locked_ref, ntok=ntok, has_partners=has_partners, concretise=conc if self.items else None,
+            LOCK=LOCK, locked_ref=locked_ref, ntok=ntok, has_partners=has_partners, concretise=conc if self.items else (lambda m: dict(harness="sync", family="partner_collected")),
             witness=dict(name_still_has_partners=has_partners, event_index_is_slice=z3.Bool("event_index_is_slice")))
 
     def post(self, cx, I, ov, info, kind, payload, st):
@@ -339,3 +339,105 @@ class SyncTraitModified(_SyncHandler):
 class SyncTraitItemsModified(_SyncHandler):
     qualname = "HasTraits._sync_trait_items_modified"
     items = True
+
+
+# ------------------------------------------------------------------------------------------------------------------
+# the weak-reference callback: a partner object has been garbage-collected
+# ------------------------------------------------------------------------------------------------------------------
+@register
+class SyncListenerDeleted(Contract):
+    """sync_trait.<locals>._sync_trait_listener_deleted(ref, info): 'after the partner object has been garbage-collected,
+    changes no longer propagate and raise nothing'.  When the weak reference `ref` dies
+
+      * every link whose partner is that reference is deleted from the per-trait partner tables, no other link is touched;
+      * a per-trait table that became empty is pruned;
+      * the re-entrancy LOCK TABLE, kept in the same dictionary under the key "", is left exactly as found -- it is not a
+        partner table, is empty whenever no propagation is running, and both change handlers index it unconditionally
+        (`info[""]`): pruning it makes every later change of this object, and of every object still linked to it, raise.
+
+    Shape: the lock table plus two per-trait tables of two links each (both loops are unrolled; their bodies do not depend on
+    the sizes); which links belong to the dead partner, and the contents of the lock table, are arbitrary."""
+    path = PATH
+    qualname = "HasTraits.sync_trait.<locals>._sync_trait_listener_deleted"
+    properties = ("C20",)
+    class_paths = (PATH,)
+    assumptions = ("A-PY", "bounded shape: lock table + 2 traits x 2 links, loops unrolled (contents symbolic)")
+
+    def configure(self, cx, I, ov):
+        cx.const("None")
+        self.ref = z3.Const("dead_weakref", Val)
+        self.info = z3.Const("info_dict", Val)
+        self.lock = z3.Const("lock_table", Val)
+        self.tables = [z3.Const("partners_of_trait_%d" % i, Val) for i in range(2)]
+        self.names = [z3.String("trait_name_%d" % i) for i in range(2)]
+        self.links = {(i, j): (z3.Const("key_%d_%d" % (i, j), Val), z3.Const("weakref_%d_%d" % (i, j), Val), z3.Const("alias_%d_%d" % (i, j), Val))
+                      for i in range(2) for j in range(2)}
+        self.lock_len = z3.Int("len_of_lock_table")
+        lg = lambda st, rec: st.gset("trace", st.ghost.get("trace", ()) + (rec,))
+
+        def items_attr(I2, o, st, k):
+            def apply(I3, a, kw, s, kk):
+                if o.t.eq(self.info):
+                    return kk(VTuple([VTuple([VStr(const=""), VElem(self.lock)])] +
+                                     [VTuple([VStr(self.names[i]), VElem(self.tables[i])]) for i in range(2)]), s)
+                for i in range(2):
+                    if o.t.eq(self.tables[i]):
+                        return kk(VTuple([VTuple([VElem(self.links[(i, j)][0]), VTuple([VElem(self.links[(i, j)][1]), VElem(self.links[(i, j)][2])])]) for j in range(2)]), s)
+                if o.t.eq(self.lock):
+                    raise Unsupported("iteration over the lock table")
+                raise Unsupported("items of %r" % (o,))
+            return k(VFunc("opaque", name="items", apply=apply), st)
+        cx.elem_attrs["items"] = items_attr
+        cx.module_globals["list"] = VFunc("opaque", name="list", apply=lambda I2, a, kw, st, k: k(a[0], st))
+
+        def delitem_hook(I2, obj, key, st, k):
+            if isinstance(obj, VElem):
+                return k(NONE, lg(st, ("del", obj.t, key)))
+            return None
+        cx.delitem_hook = delitem_hook
+
+        def len_hook(I2, x, st, k):
+            if isinstance(x, VElem) and x.t.eq(self.lock):
+                return k(VInt(self.lock_len), st.assume(self.lock_len >= 0))
+            for i in range(2):
+                if isinstance(x, VElem) and x.t.eq(self.tables[i]):
+                    gone = [r for r in st.ghost.get("trace", ()) if r[0] == "del" and r[1].eq(self.tables[i])]
+                    return k(VInt(2 - len(gone)), st)
+            return None
+        cx.len_hook = len_hook
+
+    def setup(self, cx, I, ov):
+        st = St().gset("trace", ())
+        st = st.assume(z3.Distinct(self.info, self.lock, *self.tables), self.names[0] != self.names[1],
+                       *[n != z3.StringVal("") for n in self.names],
+                       *[self.links[(i, 0)][0] != self.links[(i, 1)][0] for i in range(2)])
+        return st, [VElem(self.ref), VElem(self.info)], {}, dict(witness={"len(lock table)": self.lock_len},
+                                                                 concretise=lambda m: dict(harness="sync", family="partner_collected"))
+
+    def post(self, cx, I, ov, info, kind, payload, st):
+        if kind == "raise":
+            return [("exc-free:the-callback-raises-nothing", z3.BoolVal(False), dict(exception="%s %r" % (payload.cname or payload.sym, payload.origin)))]
+        tr = st.ghost.get("trace", ())
+        dels = [r for r in tr if r[0] == "del"]
+        out = []
+        # the lock table
+        lock_deleted = any(r[1].eq(self.info) and isinstance(r[2], VStr) and r[2].const == "" for r in dels)
+        out.append(("post:the-lock-table-entry-is-left-as-found", z3.BoolVal(not lock_deleted)))
+        out.append(("post:nothing-is-deleted-from-the-lock-table", z3.BoolVal(not any(r[1].eq(self.lock) for r in dels))))
+        for i in range(2):
+            dead = [self.links[(i, j)][1] == self.ref for j in range(2)]
+            for j in range(2):
+                gone = any(r[1].eq(self.tables[i]) and isinstance(r[2], VElem) and r[2].t.eq(self.links[(i, j)][0]) for r in dels)
+                out.append(("post:a-link-is-deleted-iff-its-partner-is-the-dead-reference", z3.BoolVal(gone) == dead[j]))
+            pruned = any(r[1].eq(self.info) and isinstance(r[2], VStr) and r[2].t is not None and r[2].t.eq(self.names[i]) for r in dels)
+            out.append(("post:a-partner-table-is-pruned-iff-it-became-empty", z3.BoolVal(pruned) == z3.And(*dead)))
+        known = 0
+        for r in dels:
+            if r[1].eq(self.info) or any(r[1].eq(t) for t in self.tables) or r[1].eq(self.lock):
+                known += 1
+        out.append(("post:nothing-else-is-deleted", z3.BoolVal(known == len(dels))))
+        return out
+
+    def covers(self, cx, ov, info):
+        return [("partner-had-links", lambda k, p, s: z3.BoolVal(k == "return" and any(r[0] == "del" for r in s.ghost.get("trace", ())))),
+                ("partner-had-no-link", lambda k, p, s: z3.BoolVal(k == "return" and not any(r[0] == "del" for r in s.ghost.get("trace", ()))))]
